@@ -22,6 +22,7 @@ Definition allowed (l : step) : Prop :=
   | Env (EvPerTry _) | Env EvGlobal | Env EvWake => True
   | Env (EvDownReset r) => r = RsTermination
   | Env (EvTerminate code) => code = 403
+  | Env (EvStaleTry _) | Env (EvStaleGlobal _) => False    (* covered by the general theorem stale_timer_noop *)
   end.
 
 Definition resp_events (k : nat) : list step :=
@@ -38,7 +39,7 @@ Lemma cover src c : forall x l, allowed l ->
   In l (sigma_at x) \/
   (let '(s', o) := do_step src c (i_st x) l in s' = i_st x /\ o = [] /\ is_down_reset l = false /\ is_terminate l = false).
 Proof.
-  intros x l Hl. unfold sigma_at. destruct l as [|e]; [left; cbn; auto|]. destruct e as [k st d t|k r|k| |r|code|]; cbn [allowed] in Hl.
+  intros x l Hl. unfold sigma_at. destruct l as [|e]; [left; cbn; auto|]. destruct e as [k st d t|k r|k| |r|code| |g|g]; cbn [allowed] in Hl.
   - destruct (Nat.eq_dec k (cur (i_st x))) as [->|Hk].
     + left. apply in_or_app. right. apply in_or_app. left. unfold resp_events. apply in_flat_map.
       destruct Hl as [H1 H2]. exists st. split; [exact H1|]. apply in_map_iff. exists (d, t). split; [reflexivity|exact H2].
@@ -56,6 +57,8 @@ Proof.
   - subst r. left. cbn. auto.
   - subst code. left. cbn. auto.
   - left. cbn. auto 10.
+  - contradiction.
+  - contradiction.
 Qed.
 
 (* family check and its meaning *)
